@@ -82,7 +82,7 @@ struct PrimeStats { uint64_t evals = 0, nt = 0, primes = 0, sprp2 = 0, slprp = 0
 static bool check_n(const char *inst, uint64_t n, bool p, bool do_factor, PrimeStats &st) {
     g_crumb.inst = inst; snprintf(g_crumb.what, sizeof g_crumb.what, "n=%s", to_s(u128(n)).c_str());
     bool ok = true; ++st.evals;
-    if (lib_is_prime(n) != p) { fail(inst, j1("is_prime", n), std::string("is_prime returned ") + (p ? "false for a prime" : "true for a non-prime")); ok = false; }
+    if (lib_is_prime(n) != p) { fail(inst, j1("is_prime", n), std::string("is_prime returned ") + (p ? "false for a prime" : "true for a non-prime")); return false; }   // stop here: the factor finder relies on is_prime and may not terminate
     bool nt = p;
     if (n > 3 && (n & 1)) {
         // strong_lucas is only ever reached through baillie_psw after miller_rabin(2) passed; n = 2^64-1 (n+1 wraps to 0) never
@@ -118,7 +118,7 @@ static void exhaustive(unsigned shard, unsigned nshards, unsigned lim_log2) {
         uint64_t lo = sgi * SEG, hi = lo + SEG;
         std::fill(comp.begin(), comp.end(), 0);
         for (uint32_t p : base) { uint64_t pp = uint64_t(p) * p; if (pp >= hi) break; uint64_t s = std::max(pp, (lo + p - 1) / p * p); for (uint64_t j = s; j < hi; j += p) comp[j - lo] = 1; }
-        for (uint64_t n = lo; n < hi; ++n) {
+        for (uint64_t n = lo; n < hi && g_fail == 0; ++n) {
             bool p = n >= 2 && !comp[n - lo];
             check_n("exhaustive", n, p, true, st);
         }
